@@ -6,6 +6,7 @@ CONSTANTS
   Rets <- RetsThree
   Advs <- AdvsThree
   Decs <- DecsSleep
+  BFaults <- BFaultsNone
   Ras <- RasNone
   Modes = {"call", "exec"}
   NRuns = 1
